@@ -134,6 +134,8 @@ SameObs(cfg, a, b) == IF Ordered(cfg) THEN a = b
 C18(pre, e) == Completed(e) => PureOK(e) /\ (~e.mut => SameObs(e.cfg, e.post, pre))
 
 Obl(p, pre, e) ==
+  IF e.op = "NewBad" THEN (p = "C17" => SilentOK(e))      \* a documented constructor precondition: must panic (Generic)
+  ELSE
   CASE p = "C01" -> C01(pre, e)
     [] p = "C02" -> C02(pre, e)
     [] p = "C07" -> C07(pre, e)
